@@ -92,6 +92,8 @@ PROPS["C01"] = dict(
         "Zrnt.Proofs.C01.processBlock_slashExit_eq",
         "Zrnt.Proofs.C01.processBlock_attestations_eq",
         "Zrnt.Proofs.C01.processBlock_phase0NoDeposits_eq",
+        "Zrnt.Proofs.C01.processBlock_phase0_eq",
+        "Zrnt.Proofs.C01.M_block_refines_S_phase0",
         "Zrnt.Proofs.C01.ctx_frames",
         "Zrnt.Proofs.C01.sameCommittees_initiate",
     ],
@@ -120,8 +122,8 @@ PROPS["C01"] = dict(
         "committees and total active balance (ctx_frames) into that invariant). The premise is discharged completely for phase0 blocks without operations "
         "(processBlock_noOps_eq), for phase0 blocks whose only operations are voluntary exits (processBlock_exits_eq), for phase0 blocks of proposer "
         "slashings + attester slashings + exits in any numbers (processBlock_slashExit_eq, counter-indexed invariant P0Inv) and for phase0 blocks of "
-        "attestations (processBlock_attestations_eq), and merged: ARBITRARY phase0 blocks without deposits (processBlock_phase0NoDeposits_eq); open: deposits, "
-        "altair..deneb",
+        "attestations (processBlock_attestations_eq), merged: ARBITRARY phase0 blocks without deposits (processBlock_phase0NoDeposits_eq), and EVERY phase0 block, deposits included "
+        "(processBlock_phase0_eq, M_block_refines_S_phase0; C03: M_sound_phase0) — for phase0 the premise OpSteps is gone; open: altair..deneb",
         "simulation (Sim): whenever S accepts with a post-state or rejects with `invalid`, M gives the same, and M never panics; S's own overflow/fuel/"
         "oracle outcomes (S as an executable could not decide) constrain nothing — the operation theorems exclude them under their magnitude hypotheses",
         "composition hypothesis check_types: the block is a value of the SSZ block type (per-element limits zrnt enforces when decoding)",
